@@ -26,7 +26,7 @@ def load_known():
     opn, fixed = {}, {}
     if not os.path.exists(KNOWN_FILE):
         return opn, fixed
-    for line in open(KNOWN_FILE):
+    for line in open(KNOWN_FILE, errors="replace"):
         line = line.strip()
         if not line or line.startswith("#"):
             continue
@@ -243,7 +243,7 @@ def regression_replays(prop, harness_for):
 
 def case_meta(path):
     mod, libcfg = None, "plain"
-    for l in open(path):
+    for l in open(path, errors="replace"):
         if l.startswith("module "):
             mod = l.split()[1]
         if l.startswith("# libcfg: "):
